@@ -145,10 +145,12 @@ pub fn tmpl_side(t: Tmpl) -> Side {
 }
 
 pub fn tmpl_tif(t: Tmpl) -> TimeInForce {
-    match (t as u64) % 4 {
+    match (t as u64) % 6 {
         0 => TimeInForce::Gtc,
         1 => TimeInForce::Gtd(77),
         2 => TimeInForce::Day,
+        3 => TimeInForce::Ioc,
+        4 => TimeInForce::Fok,
         _ => TimeInForce::Gtc,
     }
 }
